@@ -60,7 +60,11 @@ def _days(dt):
     """Get the days (floating point) from *d_t*."""
     if hasattr(dt, "shape"):
         dt = np.asanyarray(dt, dtype=np.timedelta64)
-    return dt / np.timedelta64(1, "D")
+    # whole days plus the fraction of a day: the tick count of the remainder is exactly representable,
+    # so every datetime64 unit gives the same bits (a plain division rounds ns ticks twice)
+    day = np.timedelta64(1, "D")
+    whole = dt // day
+    return whole + (dt - whole * day) / day
 
 
 def gmst(utc_time):
